@@ -274,6 +274,8 @@ def exc_kind(ex):
         return "oserr"
     if isinstance(ex, ValueError) and "signal only works in main thread" in str(ex):
         return "signal"
+    if isinstance(ex, RuntimeError) and "changed size during iteration" in str(ex):
+        return "race"
     if isinstance(ex, ValueError) and str(ex).startswith("x01:"):
         return "crash"
     if isinstance(ex, TypeError) and "NoneType" in str(ex):
@@ -666,6 +668,8 @@ class Runner(object):
             escaped = "aborted"
             self.stats["aborted"] += 1
         except Exception as ex:
+            if isinstance(ex, RuntimeError) and "can't start new thread" in str(ex):
+                raise                      # the machine is out of threads: a failure of the environment, not an observation
             escaped = ex
             self.emit("escaped", exc=type(ex).__name__, msg=str(ex)[:200], tb=traceback.format_exc()[-1500:])
         if self.audit.refused:          # refused by the audit hook before they ran: an observation, not a crash
